@@ -21,7 +21,8 @@ SPEC = {
                    "PyMatterSim.reader.gsd_reader_helper:read_gsd", "PyMatterSim.reader.gsd_reader_helper:read_gsd_dcd",
                    "PyMatterSim.reader.simulation_log:read_lammpslog"],
     "floors": {"roundtrip_header": 1500, "roundtrip_atoms": 500, "additions": 300, "vector_columns": 500, "data_header": 200,
-               "centertype": 1500, "gsd": 1000, "gsd_dcd": 1000, "log_sections": 500, "log_values": 300},
+               "centertype": 1500, "gsd": 1000, "gsd_dcd": 1000, "log_sections": 500, "log_values": 300,
+               "log_real_columns_starting_with_a_whole_number": 100},
     "insitu": (),
     "rule": ("writer->reader round trips: timestep 0..1e9, N 1..40, bounds of any origin, {2D,3D}, additional column names, 1..4 "
              "frames, atom lines in any id order; read_additions for every zero-based column, read_lammps_vector for random 1-based "
@@ -473,6 +474,13 @@ def log_case(ctx, rng, wd):
         vals = rng.normal(size=(nrow, ncol)) * 10.0 ** rng.integers(-3, 5, size=ncol)
         intcol = rng.random(ncol) < 0.15
         vals[:, intcol] = np.round(vals[:, intcol])
+        if rng.random() < 0.35 and nrow >= 2:
+            # a run started from rest / from a perfect lattice: real-valued columns (Temp, Press, KinEng, Msd) whose FIRST row prints as a
+            # whole number ("0", "1", "10", "-3") while every later row has decimals
+            for c_ in np.flatnonzero(rng.random(ncol) < 0.5):
+                if not intcol[c_]:
+                    vals[0, c_] = float(rng.choice([0.0, 0.0, 1.0, 10.0, -3.0, 300.0]))
+            ctx.count("log_real_columns_starting_with_a_whole_number")
         style = str(rng.choice(["classic", "wide"]))
         out.append(" ".join(cols) + (" " if rng.random() < 0.5 else ""))
         toks = []
